@@ -29,8 +29,10 @@ INFO = dict(
                "entry per input point and flags exactly the points outside every source triangle, batched (any k, any "
                "grouping) or not; (alpha, beta) are the barycentric coordinates, containment = closed triangle, image = "
                "barycentric combination of the target vertices; the result is equivariant under every permutation of "
-               "the input points; apply on a shape = apply on its points; for every finite interleaving of applies and "
-               "in-place edits the memoised transform returns the stateless piecewise-affine result.  The behaviours "
+               "the input points; for every finite interleaving of applies and in-place edits a memo that OWNS a copy of its "
+               "key (type Owned = np.array(points, copy=True)) returns the stateless piecewise-affine result.  All "
+               "geometric statements (closed triangle, outside every triangle) are about source triangles of non-zero "
+               "area: the model divides in the rationals (1/0 = 0) where numpy yields inf / nan (see assumptions).  The behaviours "
                "coded before the repairs are refuted by kernel-checked witnesses.  These 13 functions are no longer "
                "only transcribed: their SOURCE TEXT in the working tree is translated to Lean on every run (for loops "
                "over range(0, n, k) as folds, try / except / else with the handler seeing the state at the point of "
@@ -38,11 +40,17 @@ INFO = dict(
                "arguments, to the definition of Core/C09Src.lean of the same name, which Props/C09Src.lean proves "
                "equal to the model; batched_eq_unbatched_translated, pwa_mask_exact_translated, "
                "pwa_translated_end_to_end, chain_pwa_batched_translated, cachedPwa_history_pure_translated, "
-               "apply_shape_translated state the property about the translated functions themselves.  A harmless "
+               "apply_shape_translated state the property about the translated functions themselves.  The copy of the memo key is visible to the translation: storing the caller's "
+               "array itself (the defect repaired by d62a379) does not type-check against the model definition, so "
+               "cachedIab_eq breaks.  A harmless "
                "rewrite of the Python (renamed or extra temporaries, re-ordered statements, inverted tests, early returns "
                "instead of else, De Morgan, a raising list comprehension instead of an append-loop - normalised by the "
-               "translator to the loop) keeps the proofs; a changed decision (another bound, argument, branch, order of attribute "
-               "writes) or source outside the vocabulary breaks an obligation, followed by the directed search.  "
+               "translator to the loop) keeps the proofs; a changed decision that the vocabulary separates (another bound, slice, accumulator, branch, "
+               "order of attribute writes, argument order of the stored arrays, vstack vs hstack, a dropped [:, None], a "
+               "dropped copy of the memo key, an operand of the barycentric formulas) or source outside the vocabulary "
+               "breaks an obligation, followed by the directed search; decisions mapped to the identity by the rule "
+               "tables (astype(np.uint32), WithDims' y.copy(), dtype=bool / dtype of np.zeros) are NOT seen by the "
+               "obligations and are decided by the oracle and the correspondence only.  "
                "Further tied to /repo by (i) the correspondence: real histories (array reuse, in-place edits, inputs "
                "1e-7 apart), all batch sizes 1..n+2, zero/one point, integer dtypes, in/out-of-domain mixes, meshes "
                "with overlapping triangles and holes, points EXACTLY ON shared edges / vertices / the outline and a "
@@ -55,8 +63,9 @@ INFO = dict(
     level_note="Trusted: Lean kernel; axioms propext/Classical.choice/Quot.sound; Python harness; driver parser; the "
                "translator (harness/py2lean2.py, self-test tools/test_py2lean2.py: 416 evaluations Python vs #eval) and "
                "the C09 rule tables (harness/trans_c09.py: which numpy expression is which operation of "
-               "Core/C09Src.lean - einsum / nonzero / fancy indexing / broadcasting as transcribed there, exercised by "
-               "the correspondence because the driver executes exactly those definitions).  Modelled, not verified: "
+               "Core/C09Src.lean - einsum / nonzero / fancy indexing / broadcasting as transcribed there; there is no "
+               "separate numpy-vs-#eval test of these words: they are exercised by the correspondence, because the "
+               "driver executes exactly those definitions, on non-degenerate meshes and in-range indices only).  Modelled, not verified: "
                "the per-point map of the non-piecewise transform classes is an abstract function (affine members of "
                "chains are modelled exactly); Delaunay triangulation (scipy) is an input; float rounding is absorbed "
                "by a 1e-9 tolerance and, on general meshes, by rejecting query points within 1e-6 (barycentric units) "
@@ -66,17 +75,51 @@ INFO = dict(
          "permutation) point-location case, or one (chain, points, batch size) case, or one (point cloud, pixel grid, "
          "batch size) case; distinct = distinct (class, history/mask/batch size/mesh/points); non-trivial = at least "
          "two applies or a batch size that is not 1, n or None",
-    partial=["statelessness of the non-caching transform classes is `pure_of_no_writes` / `apply_eq_fresh` under a frame "
+    partial=["non-degenerate meshes only: on a source mesh with a zero-area triangle the model (rational division, 1/0 = 0: "
+             "alpha = beta = 0, `contains` true for every point) differs from numpy (inf / nan: such a triangle contains "
+             "nothing); pwa_src_end_to_end / pwa_translated_end_to_end / pointInPointcloud_translated are statements "
+             "about the model's `contains`, which is the closed triangle only under gram != 0 "
+             "(contains_iff_closed_triangle); the correspondence does not drive degenerate meshes, the oracle does "
+             "(family `degenerate`: zero-area triangles among proper ones, judged with the zero-area ones left out)",
+             "which of several containing triangles is reported is not part of the property; oracle and correspondence "
+             "accept any containing triangle / any of the per-triangle images (counted as tie-choice-differs-from-model), "
+             "but the obligations containment_eq / indexAlphaBeta_eq pin the code's choice (nonzero + repeated-index "
+             "assignment = last containing triangle): an implementation that chooses differently satisfies the "
+             "property and is reported as `no-failing-input-found`",
+             "the memo is RETURNED by reference by the public method CachedPWA.index_alpha_beta (`return self._iab`): a "
+             "caller that edits the returned arrays in place changes later results of apply for equal input values; "
+             "the property's list (arrays PASSED earlier, observed at apply) does not name this channel, the model "
+             "(values) cannot express it and the oracle does not exercise it",
+             "apply on a shape: `x._transform(f)` is the hand-written PyVal.transform (a copy holding f(points)); the "
+             "real PointCloud._transform / landmark path (menpo/shape, menpo/landmark) is neither anchored nor "
+             "translated, so applySrc_shape / apply_shape_translated are about Transform.apply's own try / except and "
+             "closure only; that shapes and arrays agree on the real code is decided by the oracle (shape applies in "
+             "histories, batches and mesh cases)",
+             "resolution of the history oracle: outputs are compared to 1e-10 relative, so a memo whose hit tolerance is "
+             "below about 1e-9 returns stale answers the oracle cannot tell from correct ones (inputs 1e-6 .. one ulp "
+             "apart are generated; 1e-8 and coarser are detected); such a memo still breaks the obligation cachedIab_eq "
+             "and is then reported as `no-failing-input-found`",
+             "totalised where numpy raises, never driven: a column number outside the points reads 0 (selectCols), a "
+             "triangle number outside the target reads the default triangle (gatherPts), finishApply (.ok none) = .ok "
+             "[], the 1-D branch of withDims_batched_src, pyRange n 0 (Python: ValueError; every property theorem "
+             "carries ValidBatch)",
+             "statelessness of the non-caching transform classes is `pure_of_no_writes` / `apply_eq_fresh` under a frame "
              "hypothesis that is checked, not proved: regenerated obligations `applyWrites_ok`, `globalWrites_ok` "
              "(measured on live objects of every class for every public application each run), "
              "`transformClasses_covered`, `hiddenState_ok` (no mutable module global / class attribute / default / "
              "function attribute / memoising wrapper / closure cell in menpo/transform/** and menpo/image/boolean.py); "
-             "state kept outside those modules (numpy, other packages) is decided by the fresh-transform oracle only",
+             "state kept outside those modules (menpo.shape / menpo.base on the _transform / copy path of shape applies, "
+             "numpy, other packages) is decided by the fresh-transform oracle only; dtype promotion of np.vstack "
+             "(integer inputs, seeded C09-2) is outside the model and decided by the oracle",
              "BooleanImage.constrain_to_pointcloud itself (bounding-box restriction of the pixel indices, slice "
              "assignment of the mask, functools.partial passing batch_size on) is not translated: the function it "
              "delegates to (pwa_point_in_pointcloud) is; the wrapper is decided by the oracle on every pixel (also on "
              "the outline) for every batch size, and by the obligation that its batch_size default is None"],
     assumptions=["numpy computations on equal values and equal shapes are deterministic to 1e-10",
+                 "source triangles are non-degenerate (non-zero Gram determinant) wherever model and theorems speak of "
+                 "closed triangles; menpo itself accepts a TriMesh with zero-area triangles",
+                 "the `_apply` of every non-piecewise transform class acts point by point (commutes with concatenation): "
+                 "hypothesis of batched_eq_unbatched_hom, sampled by the batch oracle on every class",
                  "for a repeated index in a fancy-index assignment numpy keeps the last value (documented numpy "
                  "behaviour; decides which of several containing triangles index_alpha_beta reports, not the "
                  "property: on a consistent mesh the image is the same, theorem triImage_shared_edge)"],
@@ -357,7 +400,7 @@ def locate_exact(spts, trilist, P):
     for t, (i, j, k) in enumerate(trilist):
         w = tri_weights(spts[i], spts[j], spts[k], P)
         if w is None:
-            return False, []
+            continue        # a zero-area triangle has no interior: it contains no point that is robustly anywhere
         m = min(w)
         if -MARGIN < m < MARGIN:
             robust = False
@@ -383,7 +426,8 @@ def random_mesh(rng, np):
     choice among several containing triangles), with holes, or a single triangle"""
     mesh = _grid_mesh(rng, np)
     pts, tl = mesh.points.copy(), mesh.trilist.tolist()
-    kind = rng.choice(["grid", "grid", "overlap-first", "overlap-last", "overlap-both", "holes", "single", "shuffled"])
+    kind = rng.choice(["grid", "grid", "overlap-first", "overlap-last", "overlap-both", "holes", "single", "shuffled",
+                       "degenerate"])
     big = [[0, 2, 6], [8, 6, 2], [0, 8, 6], [2, 0, 8]]
     if kind == "overlap-first":
         tl = [rng.choice(big)] + tl
@@ -399,6 +443,14 @@ def random_mesh(rng, np):
     elif kind == "shuffled":
         rng.shuffle(tl)
         tl = [rng.sample(t, 3) for t in tl]
+    elif kind == "degenerate":
+        # zero-area triangles (a repeated vertex, along an edge of the grid or a diagonal) among the proper ones: numpy
+        # divides by a zero Gram determinant (inf / nan: such a triangle contains nothing).  The Lean model divides in
+        # the rationals (1/0 = 0) and is NOT driven on these meshes (assumption `non-degenerate source triangles`);
+        # the oracle decides them with the zero-area triangles left out.
+        for _ in range(rng.randint(1, 2)):
+            a_, b_ = rng.sample(range(9), 2)
+            tl.insert(rng.randrange(len(tl) + 1), rng.choice([[a_, a_, b_], [a_, b_, a_], [b_, a_, a_]]))
     return kind, pts, tl
 
 
@@ -485,9 +537,13 @@ def mesh_case(ctx, rng, lines, pending):
         ctx.check(ok, site + "/index_alpha_beta", "mask-unbatched",
                   "failure %r, points outside every source triangle are %r" % (
                       got_iab[1].tolist() if got_iab[0] == "tce" else got_iab, want_mask), rp)
-    cid = "m%d" % len(lines)
-    lines.append("%s iab %s %s" % (cid, mesh_tokens(pts, tl), common.fmat(x) if n else "0 0"))
-    pending[cid] = ("iab", got_iab, rp)
+    driven = kind != "degenerate"      # the model is only claimed for non-degenerate source triangles
+    if not driven:
+        ctx.count("mesh-degenerate-not-driven")
+    if driven:
+        cid = "m%d" % len(lines)
+        lines.append("%s iab %s %s" % (cid, mesh_tokens(pts, tl), common.fmat(x) if n else "0 0"))
+        pending[cid] = ("iab", got_iab, rp)
     # (2) apply with every batching variant, both classes, arrays and shapes
     exp_img = [[image_exact(spts_f, tpts_f, tl, (common.frac(p[0]), common.frac(p[1])), t) for t in c]
                for p, c in zip(x, conts)]
@@ -519,11 +575,12 @@ def mesh_case(ctx, rng, lines, pending):
                 ctx.check(ok, site + "/" + cls_name, "mask-batched" if k is not None else "mask-unbatched",
                           "apply(batch_size=%r): %s, points outside every source triangle are %r" % (
                               k, got[1].tolist() if got[0] == "ok" else fmt_tce(got), want_mask), rk)
-            if cls_name == "PiecewiseAffine" or k is None:
+            if driven and (cls_name == "PiecewiseAffine" or k is None):
                 cid = "m%d" % len(lines)
                 lines.append("%s pwa %d %s %s %s" % (cid, k or 0, mesh_tokens(pts, tl), common.fmat(tpts),
                                                      common.fmat(x) if n else "0 0"))
-                pending[cid] = ("pwa", got, rk)
+                pending[cid] = ("pwa", got, dict(rk, images_per_containing_triangle=[
+                    [[float(v) for v in e] for e in es] for es in exp_img]))
     # (3) order of the points: a permutation of the input permutes the result / the mask
     if n >= 2:
         sigma = list(range(n))
@@ -696,7 +753,8 @@ def exact_mesh_case(ctx, rng, lines, pending):
             if n and (cls_name == "PiecewiseAffine" or k is None):
                 cid = "e%d" % len(lines)
                 lines.append("%s pwa %d %s %s %s" % (cid, k or 0, mesh_tokens(pts, tl), common.fmat(tpts), common.fmat(x)))
-                pending[cid] = ("pwa", got, rk)
+                pending[cid] = ("pwa", got, dict(rk, images_per_containing_triangle=[
+                    [[float(v) for v in e] for e in es] for es in exp_img]))
     # the same points through TransformChain([Translation, PiecewiseAffine]) (exact: the offset is a multiple of 1/4)
     if n and rng.random() < 0.5:
         off = [rng.randint(-8, 8) / 4.0, rng.randint(-8, 8) / 4.0]
@@ -719,7 +777,8 @@ def exact_mesh_case(ctx, rng, lines, pending):
             cid = "e%d" % len(lines)
             lines.append("%s chainpwa-fixed %d %s %s %s %s" % (cid, k or 0, common.fqs(off), mesh_tokens(pts, tl),
                                                              common.fmat(tpts), common.fmat(xs)))
-            pending[cid] = ("pwa", got, rk)
+            pending[cid] = ("pwa", got, dict(rk, images_per_containing_triangle=[
+                [[float(v) for v in e] for e in es] for es in exp_img]))
 
 
 def exact_boolean_case(ctx, rng, lines, pending):
@@ -872,7 +931,7 @@ def chain_pwa_case(ctx, rng, lines, pending):
     kind, pts, tl = random_mesh(rng, np)
     tpts = pts.dot(np.array([[1.25, 0.25], [-0.5, 1.5]])) + np.array([3.0, -2.0])
     off = [rng.randint(-8, 8) / 4.0, rng.randint(-8, 8) / 4.0]
-    spts_f = fpts(pts)
+    spts_f, tpts_f = fpts(pts), fpts(tpts)
     n = rng.choice([0, 1, 2, 3, 4, 5, 6, 7])
     q, conts = mesh_query_points(rng, np, spts_f, pts, tl, n, False)
     n = len(q)
@@ -915,14 +974,22 @@ def chain_pwa_case(ctx, rng, lines, pending):
             ctx.check(got[0] == "ok" and got[1].shape == (n, 2), site, "spurious-failure",
                       "all points in the domain but apply(batch_size=%r) gave %s" % (k, fmt_tce(got) if got[0] != "ok" else got[1].shape),
                       dict(rp, batch_size=k))
+        if kind == "degenerate":
+            continue            # not driven: see random_mesh
         cid = "p%d" % len(lines)
         lines.append("%s chainpwa-fixed %d %s %s %s %s" % (cid, k or 0, common.fqs(off), mesh_tokens(pts, tl),
                                                          common.fmat(tpts), common.fmat(x) if n else "0 0"))
-        pending[cid] = ("pwa", got, dict(rp, batch_size=k))
+        pending[cid] = ("pwa", got, dict(rp, batch_size=k, containing_triangles=conts, images_per_containing_triangle=[
+            [[float(v) for v in image_exact(spts_f, tpts_f, tl, (common.frac(p_[0]), common.frac(p_[1])), t_)] for t_ in c_]
+            for p_, c_ in zip(q, conts)]))
 
 
 
 # ------------------------------------------------------------------------------- histories
+
+# offsets between the versions of one decade: closer than any fixed tolerance a memo could use (down to one ulp)
+NEAR_OFFSETS = [0.0, 1e-7, 2e-7, 1e-9, 1e-12, "ulp", 1e-6, 1e-8, 0.0, 0.0]
+
 
 def history_case(ctx, name, make, ndims, domain, rng, lines, pending):
     """one history on one transform: arrays a0..a3 (a3 has another length), versions of content"""
@@ -948,7 +1015,8 @@ def history_case(ctx, name, make, ndims, domain, rng, lines, pending):
                         o = [o[0] - domain[2][0], o[1] - domain[2][1]]
                     base[sub.randrange(arr_len)] = o
                 contents[key] = base
-            contents[v] = contents[key] + (v % 10) * 1e-7
+            off = NEAR_OFFSETS[v % 10]
+            contents[v] = np.nextafter(contents[key], np.inf) if off == "ulp" else contents[key] + off
         return contents[v]
 
     t = make()
@@ -958,16 +1026,18 @@ def history_case(ctx, name, make, ndims, domain, rng, lines, pending):
     ops, outs, labels = [], [], []
     n_ops = rng.randint(3, 12)
     applies = 0
+    n_fresh = [0]
     for _ in range(n_ops):
         r = rng.random()
         a = rng.randrange(n_arr)
         if r < 0.55 or applies == 0:
             as_shape = rng.random() < 0.2
             x = PointCloud(arrays[a], copy=False) if as_shape else arrays[a]
-            got = safe_apply(t, x)
+            k_apply = rng.choice([None, None, None, 1, 2, len(arrays[a]) + 1])     # batch sizes mixed on one object
+            got = safe_apply(t, x, batch_size=k_apply)
             want = safe_apply(make(), arrays[a].copy())
             ok = same(got, want, 1e-10)
-            ops.append(("A", a, cur[a], "shape" if as_shape else "array"))
+            ops.append(("A", a, cur[a], "shape" if as_shape else "array", k_apply))
             applies += 1
             if not ok:
                 # which earlier version does the answer belong to?
@@ -976,17 +1046,37 @@ def history_case(ctx, name, make, ndims, domain, rng, lines, pending):
                          "apply #%d on array %d (content version %d) does not equal a fresh transform on the same "
                          "values; it equals the result for version(s) %r" % (applies, a, cur[a], stale[:3]),
                          {"class": name, "ops": ops, "n_main": n_main, "n_alt": n_alt,
-                          "how": "arrays a start at version 10a; A = t.apply(arrays[a]); W = arrays[a][:] = content(v); "
-                                 "versions in the same decade differ by 1e-7; versions >= 1000 contain an outside point"})
+                          "how": "arrays a start at version 10a; A = t.apply(arrays[a], batch_size=last field); W = an "
+                                 "in-place edit of arrays[a] (whole array: versions of one decade differ by 1e-7 .. one "
+                                 "ulp; versions 101.. = one coordinate moved by 1e-6 .. one ulp, or two rows swapped); "
+                                 "versions >= 1000 contain an outside point"})
                 labels.append(None)
             else:
                 labels.append("e" if got[0] == "tce" else str(cur[a]))
         else:
             g = 3 if a == 3 else rng.choice([0, 1, 2, a])
-            v = 10 * g + rng.randrange(3)
-            if is_pwa and rng.random() < 0.2:
-                v += 1000
-            arrays[a][:] = content(v)
+            how = rng.random()
+            if how < 0.6:
+                # the whole array is overwritten in place
+                v = 10 * g + rng.randrange(8)
+                if is_pwa and rng.random() < 0.2:
+                    v += 1000
+                arrays[a][:] = content(v)
+            else:
+                # a PARTIAL in-place edit: one coordinate of one row moves by a tiny amount, or two rows swap places
+                # (a memo keyed on part of the array, a checksum of a few entries or the first row would not notice)
+                n_fresh[0] += 1
+                v = (1000 if cur[a] >= 1000 else 0) + 100 + n_fresh[0]
+                if how < 0.85 or len(arrays[a]) < 2:
+                    r_, c_ = rng.randrange(len(arrays[a])), rng.randrange(ndims)
+                    d_ = rng.choice([1e-6, 1e-8, 1e-9, 1e-12, "ulp"])
+                    arrays[a][r_, c_] = np.nextafter(arrays[a][r_, c_], np.inf) if d_ == "ulp" else arrays[a][r_, c_] + d_
+                    ctx.count("history-partial-edit:one-coordinate")
+                else:
+                    r_, q_ = rng.sample(range(len(arrays[a])), 2)
+                    arrays[a][[r_, q_]] = arrays[a][[q_, r_]]
+                    ctx.count("history-partial-edit:row-swap")
+                contents[v] = arrays[a].copy()
             cur[a] = v
             ops.append(("W", a, v))
     ctx.count("history:" + name)
@@ -1152,8 +1242,15 @@ def explore(ctx, n_hist, n_batch, n_bimg, lines, pending, n_mesh=0, n_chain=0, n
             exact_boolean_case(ctx, rng, lines, pending)
 
 
-def compare_model(op, obs, reply):
-    """None when the model's reply describes what the implementation did, else a description"""
+def compare_model(op, obs, reply, rp=None, notes=None):
+    """None when the model's reply describes what the implementation did, else a description.  Where several triangles
+    contain a point the property does not say which one is taken: the model takes the last one (as the code does), but
+    an implementation that takes another CONTAINING triangle (rp: the exact containing triangles / their images) is not
+    a disagreement - it is counted in `notes` only."""
+    rp = rp or {}
+    notes = notes if notes is not None else []
+    conts = rp.get("containing_triangles") or rp.get("closed_containing_triangles")
+    images = rp.get("images_per_containing_triangle")
     toks = reply.split()
     if not toks:
         return "empty reply"
@@ -1170,6 +1267,9 @@ def compare_model(op, obs, reply):
             return "model has %d entries, implementation %d points" % (len(vals) // 3, len(obs[1]))
         for i in range(len(obs[1])):
             if int(vals[3 * i]) != int(obs[1][i]):
+                if conts and i < len(conts) and len(conts[i]) > 1 and int(obs[1][i]) in conts[i]:
+                    notes.append("tie-choice-differs-from-model")      # another containing triangle: allowed
+                    continue
                 return "point %d: model triangle %s, implementation %d" % (i, vals[3 * i], obs[1][i])
             if not (common.close(obs[2][i], common.pq(vals[3 * i + 1])) and common.close(obs[3][i], common.pq(vals[3 * i + 2]))):
                 return "point %d: model (alpha, beta) = (%s, %s), implementation (%r, %r)" % (
@@ -1187,6 +1287,17 @@ def compare_model(op, obs, reply):
             return "model has %d numbers, implementation %d" % (len(vals), len(flat))
         scale = max([abs(v) for v in flat] + [1.0])
         bad = [i for i in range(len(flat)) if not common.close(flat[i], vals[i], scale)]
+        if bad and images and op == "pwa" and obs[1].ndim == 2 and len(images) == len(obs[1]):
+            # the image through ANOTHER containing triangle is as good (the property does not choose among them)
+            still = []
+            for i in bad:
+                r_ = i // obs[1].shape[1]
+                if not (len(images[r_]) > 1 and any(all(common.close(float(obs[1][r_][d]), e[d], 64.0) for d in range(2))
+                                                    for e in images[r_])):
+                    still.append(i)
+            if len(still) < len(bad):
+                notes.append("tie-choice-differs-from-model")
+            bad = still
         return None if not bad else "entry %d: model %s, implementation %r" % (bad[0], toks[1 + bad[0]], flat[bad[0]])
     if op == "pip":
         got, robust = obs
@@ -1536,7 +1647,10 @@ def run(ctx):
     if lines:
         model = common.run_driver(PROP, lines)
         for cid, (op, obs, rp) in pending.items():
-            why = compare_model(op, obs, model[cid])
+            notes = []
+            why = compare_model(op, obs, model[cid], rp, notes)
+            for nt in notes:
+                ctx.count(nt)
             if why is not None:
                 ctx.mismatch(op, why, rp)
     return ctx.finish(search)
